@@ -255,6 +255,20 @@ func streamCSV(o *Out, rng *rand.Rand, thorough bool, _ []string) {
 			docs := genDocs(rng, schema, 1+rng.Intn(8))
 			stream = append(stream, collect(ctors[1+rng.Intn(4)], 1+rng.Intn(4), nil, docs)...)
 		}
+		// a table whose only column has the empty name has a header of one empty field: encoding/csv writes it as
+		// an empty line, which every CSV reader skips (external behaviour, outside the property): not generated
+		degenerate := false
+		ctx, cancel := context.WithCancel(context.Background())
+		for _, ks := range observeChunks(ctx, stream).keys {
+			if len(ks) == 1 && ks[0] == "" {
+				degenerate = true
+			}
+		}
+		cancel()
+		if degenerate {
+			o.count("skipped-single-empty-column")
+			continue
+		}
 		run(o, fmt.Sprintf("csv %d %s | %s", 1+rng.Intn(5), hx(stream), inflateTable(stream)))
 	}
 }
